@@ -186,6 +186,11 @@ impl<'a> Builder<'a> {
         if !ff_reader && let Some(t) = env.get(id) {
             return Ok(t.clone());
         }
+        if ff_reader && env.contains_key(id) {
+            // e.g. a block-local `var` used as a temporary: blocking vs non-blocking
+            // visibility is not modelled here
+            return Err("always_ff reads a variable it has already assigned".into());
+        }
         let (kind, name, w) = {
             let i = self.info(id)?;
             (i.kind, i.name.clone(), i.sw * i.elems)
@@ -366,6 +371,7 @@ impl<'a> Builder<'a> {
                 if select.is_range() || select.0.len() != 1 {
                     return Err("dynamic range / multi-dim select".into());
                 }
+
                 // dynamic single-element select on the (first) packed dimension
                 let (n, stride) = packed_shape(&var_type, elem.w);
                 let iv = self.expr(&select.0[0], env, ff)?;
@@ -695,10 +701,8 @@ impl<'a> Builder<'a> {
         let sel = if d.select.is_empty() {
             Sel::Static(moff, moff + mw - 1)
         } else if d.select.is_const() {
+            // a non-empty select is already in whole-variable coordinates (to_base_select)
             let (hi, lo) = d.select.eval_value(&mut self.ctx, &d.comptime.r#type, false).ok_or("dst select")?;
-            if d.comptime.part_select.is_some() {
-                return Err("select on a struct member destination".into());
-            }
             Sel::Static(lo, hi)
         } else if d.select.is_range() || d.select.0.len() != 1 {
             return Err("dynamic range select on destination".into());
@@ -742,6 +746,22 @@ impl<'a> Builder<'a> {
                 self.dyn_splice(&old, src, &i, sw, lo)
             }
             (Idx::Static(k), Sel::Dyn(b)) => {
+                if d.comptime.part_select.is_some() {
+                    // `s.member[i] = bit`: the analyzer has already rebased the index into
+                    // whole-variable coordinates (PartSelectPath::to_base_select)
+                    if src.w != 1 {
+                        return Err("dynamic element write width mismatch".into());
+                    }
+                    self.assumptions.push(format!(
+                        "(and (bvuge {0} {1}) (bvult {0} {2}))",
+                        b.s,
+                        bv(moff as u128, b.w),
+                        bv((moff + mw) as u128, b.w)
+                    ));
+                    let new = self.dyn_splice(&old, src, &b, 1, k * sw);
+                    env.insert(d.id, new);
+                    return Ok(());
+                }
                 let var_type = self.m.variables[&d.id].r#type.clone();
                 let (n, stride) = packed_shape(&var_type, sw);
                 if src.w != stride {
